@@ -250,6 +250,8 @@ func Run(dir, tier string, seed int64) error {
 		}
 		confs = append(confs, c)
 	}
+	seenLoc := map[string]bool{}
+	var seenLocs []string
 	serviceOf := map[string]int{"SingleSignOnService": 0, "SingleLogoutService": 1, "AttributeService": 2}
 	svcHandler := []int{5, 6, 7}
 	for ci, c := range confs {
@@ -398,6 +400,12 @@ func Run(dir, tier string, seed int64) error {
 		}
 		// ---- independent oracles
 		trimmed := strings.TrimSuffix(issuer, "/")
+		for _, a := range advs {
+			if !seenLoc[a.loc] && len(seenLocs) < 400 {
+				seenLoc[a.loc] = true
+				seenLocs = append(seenLocs, a.loc)
+			}
+		}
 		for _, a := range advs {
 			e := eff[3+a.svc]
 			if e.url != "" {
@@ -569,6 +577,24 @@ func Run(dir, tier string, seed int64) error {
 			id++
 		}
 	}
+	// ---- the path component of advertised and handcrafted URLs: net/url vs the model's url_path (URLs without percent-escapes:
+	// Path is then the raw path)
+	{
+		urls := append([]string{"https://idp.example", "https://idp.example/", "https://idp.example:8443/a/b?x=1#f", "https://idp.example/a#f?x", "http://user:pw@idp.example/p/q/",
+			"https://[::1]:8443/saml/SSO", "https://idp.example?x=/y", "/only/a/path", "https://idp.example//double", "https://idp.example/with space/x"}, seenLocs...)
+		for _, u := range urls {
+			if strings.Contains(u, "%") || !(strings.Contains(u, "://") || strings.HasPrefix(u, "/")) {
+				continue
+			}
+			pu, err := url.Parse(u)
+			if err != nil || pu.Opaque != "" {
+				continue
+			}
+			run.Res.Evaluations++
+			run.AddCase(id, fmt.Sprintf("KUrl %s %s %s", coqgen.Z(int64(id)), coqgen.Bytes(u), coqgen.Bytes(pu.Path)), map[string]interface{}{"url": u, "path": pu.Path})
+			id++
+		}
+	}
 	// ---- the two Destination checks (hooks VerifDestinationOf*) against the generated Gallina
 	{
 		locPool := []string{"https://idp.example/SSO", "https://idp.example/SSO/", "https://idp.example/sso", "https://idp.example/attribute", "", "/SSO", "https://idp.example/with space", "https://idp.example/ü", "x"}
@@ -638,7 +664,7 @@ func Run(dir, tier string, seed int64) error {
 			}
 		}
 	}
-	run.Res.Rule = "provider configurations: every issuer kind (static with/without path and trailing slash, with port; host-derived with / without path and leading slash; Forwarded-derived) with the default endpoints; each of the six endpoints (metadata, certificate, callback, SSO, SLO, attribute) set to each of 8 shapes (custom path with/without leading slash, trailing slash, empty, '/', upper case, with space, external URL) and to 5 colliding paths, the others default; random combinations. Per configuration and request host: which handler answers each route (fingerprints taken from a default provider) vs the Coq first-match model; entityID and the five advertised locations vs the model; independently: each path-configured advertised location, with the issuer prefix stripped, must be answered by the handler of its service (configurations with colliding routes are counted separately and only compared with the model), the Issuer of a LogoutResponse and of a refused Response must equal the entityID, the KeyDescriptor certificate must equal the certificate endpoint's and verify an issued assertion, also after the signing key was replaced in storage; WantAuthRequestsSigned in 10 spellings x SP flag: advertised string = configured string, and advertised xs:true <=> an unsigned request (POST and Redirect) is refused; the exported Endpoint methods vs the generated Gallina on 198 (path, url, host) triples; per configuration, requests whose Destination is absent / the advertised SingleSignOnService location / that plus a slash / the advertised SingleLogoutService location / another path under the issuer / the bare route path: accepted iff absent or the advertised location; the two Destination check functions (verif hooks) on random endpoint lists and Destinations vs the generated Gallina and a literal-membership oracle. distinct = (issuer kind, metadata / SSO / attribute endpoint shape, routes distinct)."
+	run.Res.Rule = "provider configurations: every issuer kind (static with/without path and trailing slash, with port; host-derived with / without path and leading slash; Forwarded-derived) with the default endpoints; each of the six endpoints (metadata, certificate, callback, SSO, SLO, attribute) set to each of 8 shapes (custom path with/without leading slash, trailing slash, empty, '/', upper case, with space, external URL) and to 5 colliding paths, the others default; random combinations. Per configuration and request host: which handler answers each route (fingerprints taken from a default provider) vs the Coq first-match model; entityID and the five advertised locations vs the model; independently: each path-configured advertised location, with the issuer prefix stripped, must be answered by the handler of its service (configurations with colliding routes are counted separately and only compared with the model), the Issuer of a LogoutResponse and of a refused Response must equal the entityID, the KeyDescriptor certificate must equal the certificate endpoint's and verify an issued assertion, also after the signing key was replaced in storage; WantAuthRequestsSigned in 10 spellings x SP flag: advertised string = configured string, and advertised xs:true <=> an unsigned request (POST and Redirect) is refused; the exported Endpoint methods vs the generated Gallina on 198 (path, url, host) triples; per configuration, requests whose Destination is absent / the advertised SingleSignOnService location / that plus a slash / the advertised SingleLogoutService location / another path under the issuer / the bare route path: accepted iff absent or the advertised location; the path component of every distinct advertised location and of handcrafted URLs (net/url) vs the model's url_path; the two Destination check functions (verif hooks) on random endpoint lists and Destinations vs the generated Gallina and a literal-membership oracle. distinct = (issuer kind, metadata / SSO / attribute endpoint shape, routes distinct)."
 	return run.Finish()
 }
 
